@@ -45,6 +45,10 @@ VARIANTS = [
     ("no_strop_affix", {"stropping_prefix": "", "stropping_suffix": ""}),
     ("enc_U", {"encoding_prefix": "U", "whitespace_encoding_char": "w"}),
     ("enc_underscore", {"encoding_prefix": "_e"}),
+    # extra reserved words on top of the shipped list (the shipped list is read back and extended in make_lang)
+    ("reserved_extra", {"reserved_identifiers+": ["sensorq", "alphaq", "Fooq", "xa", "zz"]}),
+    # type-specific reserved patterns without an 'all' entry of their own
+    ("type_patterns", {"reserved_token_patterns_by_type": {"path": ["^(con|aux|nul|prn)$"], "function": ["^(mainq|setupq|a[a-z])$"]}}),
 ]
 
 
@@ -52,6 +56,10 @@ def make_lang(name, overrides):
     from nunavut.lang import LanguageContextBuilder
     b = LanguageContextBuilder(include_experimental_languages=True).set_target_language(name)
     for k, v in overrides.items():
+        if k.endswith("+"):
+            shipped = LanguageContextBuilder(include_experimental_languages=True).set_target_language(name).create() \
+                .get_target_language().get_config_value_as_list(k[:-1], default_value=[])
+            k, v = k[:-1], list(shipped) + list(v)
         b.set_target_language_configuration_override(k, v)
     return b.create().get_target_language()
 
@@ -105,7 +113,8 @@ def seeds_for(pred, r, nrand):
     for w in words:
         out += [w, "_" + w, "__" + w, w + "_", w.upper(), w.capitalize(), "z" + w, w + "0", " " + w, w + " ", w[:-1],
                 w + w, "_" + w + "_", w.swapcase(), "zX" + w, w.replace("_", " "), w.replace("_", "__")]
-    out += ["isalpha", "toX", "tox", "strx", "str", "memx", "wcsx", "int8_t", "uint_t", "intx_t", "atomic_a", "memory_a",
+    out += ["con", "aux", "nul", "prn", "mainq", "setupq", "sensorq", "alphaq", "Fooq", "sensor", "alpha", "conq", "ab", "az", "abc",
+            "isalpha", "toX", "tox", "strx", "str", "memx", "wcsx", "int8_t", "uint_t", "intx_t", "atomic_a", "memory_a",
             "cnd_a", "mtx_a", "thrd_a", "tss_a", "E1", "EA", "E", "Ea", "FE_A", "INT8_MAX", "UINT_C", "INTx_MIN", "PRIx",
             "SCNX", "LC_A", "SIGA", "SIG_A", "TIME_A", "ATOMIC_A", "memory_order_a", "_A", "__a", "_a", "___A", "_", "__",
             "___", "_0", "0", "00", "0a", "a0", "a__b", "a_", "a__", "__a__", "_Ab", "_aB", "zX0041", "zX", "zx", "µ",
@@ -128,11 +137,15 @@ def exhaustive(k):
             yield "".join(t)
 
 
+HANDLER_CALLS = collections.Counter()
+
+
 def shard_worker(args):
     """One (language, config variant) pair: all id types, all strings of its share."""
     lname, vname, overrides, k, seed, nrand, shard, nshards = args
     r = random.Random("c09/%s/%s/%s/%s" % (seed, lname, vname, shard))
-    handler_calls = collections.Counter()
+    handler_calls = HANDLER_CALLS
+    before = collections.Counter(HANDLER_CALLS)
     # count failure-handler executions (wrappers installed before the encoder is built)
     import nunavut.lang.c as LC
     import nunavut.lang.cpp as LCPP
@@ -154,7 +167,7 @@ def shard_worker(args):
         return dict(error="cannot build language %s/%s: %r" % (lname, vname, e))
     pred = Predicate(lang)
     res = dict(lang=lname, variant=vname, calls=0, returned=0, raised=collections.Counter(), refs=[], unchanged_checked=0,
-               tokens=set(), handler_calls=handler_calls, digest=None, changed=0, sample=[], refmech=collections.Counter())
+               tokens=set(), handler_calls=None, digest=None, changed=0, sample=[], refmech=collections.Counter())
     h = hashlib.sha256()
     strings = []
     if shard == 0:
@@ -205,6 +218,7 @@ def shard_worker(args):
                 if other != tok:
                     res["refs"].append(("fresh Language object gives %r, earlier %r" % (other, tok), dict(lang=lname, input=s, id_type=idt)))
     res["digest"] = h.hexdigest()
+    res["handler_calls"] = collections.Counter({k: v - before.get(k, 0) for k, v in HANDLER_CALLS.items()})
     res["nstrings"] = len(strings)
     return res
 
@@ -266,7 +280,12 @@ import sys, json, hashlib
 sys.path.insert(0, %(verif)r)
 from vlib.props import c09
 out = {}
-for lname, vname, ov in %(combos)r:
+combos = %(combos)r
+order = %(order)r
+if order == "reversed": combos = combos[::-1]
+elif order == "shuffled":
+    import random; random.Random(7).shuffle(combos)
+for lname, vname, ov in combos:
     res = c09.shard_worker((lname, vname, ov, %(k)d, %(seed)d, %(nrand)d, 0, %(nshards)d))
     out[lname + "/" + vname] = res.get("digest")
 print(json.dumps(out))
@@ -275,9 +294,11 @@ print(json.dumps(out))
 
 def cross_process(ctx, combos, k, nrand, nshards, digests0):
     """Decider 3: fresh processes with other hash seeds must reproduce shard 0 of every combo bit for bit."""
-    code = CHILD % dict(verif=common.VERIF, combos=combos, k=k, seed=ctx.seed, nrand=nrand, nshards=nshards)
     procs = []
-    for hs in ("1", "12345", "random"):
+    # each child uses another hash seed AND another order of configurations: a result that depends on which language /
+    # configuration was used earlier in the process (leaked state) shows up as a digest mismatch
+    for hs, order in (("1", "given"), ("12345", "reversed"), ("random", "shuffled")):
+        code = CHILD % dict(verif=common.VERIF, combos=combos, k=k, seed=ctx.seed, nrand=nrand, nshards=nshards, order=order)
         procs.append((hs, subprocess.Popen([common.PY, "-c", code], env=common.child_env(PYTHONHASHSEED=hs),
                                            stdout=subprocess.PIPE, stderr=subprocess.PIPE, text=True)))
     for hs, p in procs:
